@@ -240,3 +240,143 @@ def stmt_key(node):
     whitespace collapsed, cut to the first line for compound statements."""
     t = text(node).strip().split("\n")[0]
     return " ".join(t.split())
+
+
+def single_defs(fn):
+    """{name: value node} for locals bound exactly once by `name = expr`
+    (never augmented, never a loop/with target, not a parameter)."""
+    import collections
+    cnt = collections.Counter()
+    val = {}
+    params = set(func_params(fn)) | {a.arg for a in fn.args.kwonlyargs}
+    if fn.args.vararg:
+        params.add(fn.args.vararg.arg)
+    if fn.args.kwarg:
+        params.add(fn.args.kwarg.arg)
+    for n in walk_no_nested(fn):
+        if isinstance(n, ast.Assign):
+            for t in n.targets:
+                if isinstance(t, ast.Name):
+                    cnt[t.id] += 1
+                    val[t.id] = n.value
+                else:
+                    for e in ast.walk(t):
+                        if isinstance(e, ast.Name) and isinstance(e.ctx, ast.Store):
+                            cnt[e.id] += 2
+        elif isinstance(n, (ast.AugAssign, ast.AnnAssign)):
+            if isinstance(n.target, ast.Name):
+                cnt[n.target.id] += 2
+        elif isinstance(n, (ast.For, ast.AsyncFor, ast.comprehension)):
+            for e in ast.walk(n.target):
+                if isinstance(e, ast.Name):
+                    cnt[e.id] += 2
+        elif isinstance(n, (ast.With, ast.AsyncWith)):
+            for it in n.items:
+                if it.optional_vars is not None:
+                    for e in ast.walk(it.optional_vars):
+                        if isinstance(e, ast.Name):
+                            cnt[e.id] += 2
+        elif isinstance(n, ast.ExceptHandler) and n.name:
+            cnt[n.name] += 2
+        elif isinstance(n, ast.NamedExpr) and isinstance(n.target, ast.Name):
+            cnt[n.target.id] += 2
+    return {k: v for k, v in val.items() if cnt[k] == 1 and k not in params}
+
+
+def canon(node, defs, depth=6):
+    """copy of node with single-definition locals replaced by their definitions"""
+    import copy
+
+    class T(ast.NodeTransformer):
+        def __init__(self, d):
+            self.d = d
+
+        def visit_Name(self, n):
+            if isinstance(n.ctx, ast.Load) and n.id in defs and self.d > 0:
+                return T(self.d - 1).visit(copy.deepcopy(defs[n.id]))
+            return n
+    return T(depth).visit(copy.deepcopy(node))
+
+
+def canon_text(node, defs, depth=6):
+    return text(canon(node, defs, depth))
+
+
+def enclosing_loops(fn):
+    """{id(stmt): [enclosing For/While nodes outermost first]} for every statement in fn"""
+    out = {}
+
+    def rec(stmts, stack):
+        for s in stmts:
+            out[id(s)] = list(stack)
+            if isinstance(s, (ast.For, ast.While, ast.AsyncFor)):
+                rec(s.body, stack + [s])
+                rec(s.orelse, stack)
+            elif isinstance(s, ast.If):
+                rec(s.body, stack)
+                rec(s.orelse, stack)
+            elif isinstance(s, (ast.With, ast.AsyncWith)):
+                rec(s.body, stack)
+            elif isinstance(s, ast.Try):
+                rec(s.body, stack)
+                for h in s.handlers:
+                    rec(h.body, stack)
+                rec(s.orelse, stack)
+                rec(s.finalbody, stack)
+    rec(fn.body, [])
+    return out
+
+
+def stmts_of(fn):
+    """all statements of a function (not nested defs), in source order"""
+    out = []
+
+    def rec(stmts):
+        for s in stmts:
+            out.append(s)
+            for f in ("body", "orelse", "finalbody"):
+                if hasattr(s, f) and not isinstance(s, (ast.FunctionDef, ast.AsyncFunctionDef, ast.ClassDef)):
+                    rec(getattr(s, f))
+            if isinstance(s, ast.Try):
+                for h in s.handlers:
+                    rec(h.body)
+    rec(fn.body)
+    return out
+
+
+def range_bounds(call):
+    """(start, stop, step) nodes of a range(...) call (None where absent) or None"""
+    if isinstance(call, ast.Call) and isinstance(call.func, ast.Name) and call.func.id == "range" and not call.keywords:
+        a = call.args
+        if len(a) == 1:
+            return None, a[0], None
+        if len(a) == 2:
+            return a[0], a[1], None
+        if len(a) == 3:
+            return a[0], a[1], a[2]
+    return None
+
+
+def is_len_of(node, path_text):
+    return isinstance(node, ast.Call) and isinstance(node.func, ast.Name) and node.func.id == "len" \
+        and len(node.args) == 1 and access_path(node.args[0]) == path_text
+
+
+def is_fresh_copy_of(node, path_text):
+    """x.copy() / list(x) / x[:] / copy(x) / deepcopy(x) / [e for e in x]"""
+    if isinstance(node, ast.Call):
+        if isinstance(node.func, ast.Attribute) and node.func.attr == "copy" and not node.args \
+                and access_path(node.func.value) == path_text:
+            return True
+        nm = access_path(node.func)
+        if nm in ("list", "copy", "deepcopy", "copy.copy", "copy.deepcopy") and len(node.args) == 1 \
+                and access_path(node.args[0]) == path_text:
+            return True
+    if isinstance(node, ast.Subscript) and access_path(node.value) == path_text and isinstance(node.slice, ast.Slice) \
+            and node.slice.lower is None and node.slice.upper is None and node.slice.step is None:
+        return True
+    if isinstance(node, ast.ListComp) and len(node.generators) == 1 and not node.generators[0].ifs \
+            and access_path(node.generators[0].iter) == path_text and isinstance(node.elt, ast.Name) \
+            and isinstance(node.generators[0].target, ast.Name) and node.elt.id == node.generators[0].target.id:
+        return True
+    return False
